@@ -178,8 +178,8 @@ class _fill_adaptive:
     @ensures("old_contents_stay_on_their_interval")
     def _(a, old, result):
         ob, nb = attr(old.self, "_binnings")[0], attr(a.self, "_binnings")[0]
-        shift = attr(ob, "_times_min") - attr(nb, "_times_min")
         f0, f1 = elems(attr(old.self, "_frequencies")), elems(attr(a.self, "_frequencies"))
+        shift = (attr(ob, "_times_min") - attr(nb, "_times_min")) if f0 else 0
         e0, e1 = elems(attr(old.self, "_errors2")), elems(attr(a.self, "_errors2"))
         bins = bins_of(nb, len(f1))
         v, w = old.value, _w(old)
